@@ -50,7 +50,22 @@ func run(sc Scenario, prefix []int, keepTrace bool) Exec {
 	if len(sc.Setup) > 0 {
 		s := engx.New(disk, sc.Setup)
 		for !s.Done() && s.Fault == "" {
-			s.Do(s.Enabled()[0])
+			// strictly one request after the other: finish what runs, persist, only then start the next
+			en := s.Enabled()
+			pick := en[0]
+			for _, want := range []string{"resume", "persist_ok", "start"} {
+				found := false
+				for _, c := range en {
+					if c.Kind == want {
+						pick, found = c, true
+						break
+					}
+				}
+				if found {
+					break
+				}
+			}
+			s.Do(pick)
 		}
 		s.Close()
 	}
@@ -487,6 +502,10 @@ func main() {
 				r.FailP(f.prop, f.sig, map[string]any{"scenario": sc, "schedule": ex.Schedule, "choices": ex.Choices, "responses": ex.Responses}, f.detail, len(ex.Schedule))
 			}
 			r.Count("scenario:" + sc.Name)
+			if os.Getenv("VERIF_DEBUG") != "" {
+				js, _ := json.Marshal(ex.Responses)
+				fmt.Fprintln(os.Stderr, "EXEC", ex.Choices, string(js), len(ex.Disk))
+			}
 			r.Case("", map[string]any{"scenario": sc.Name, "choices": ex.Choices}, fmt.Sprint(sc.Name, ex.Schedule), overlapped(ex))
 			return ex
 		}
